@@ -10,6 +10,7 @@ identical under every simulated zone assignment (the suite only ever runs in
 UTC, where "naive = UTC" and "naive = local" cannot be told apart).
 """
 import datetime
+import json
 import math
 import os
 import time
@@ -232,6 +233,13 @@ def gen_case(seeds, params, index):
                                              (10, 3), (10, 25), (10, 31),
                                              (11, 1), (11, 7), (4, 3)])
     vals['d'] = ['dt', d]
+    if clause == 'hostzone':
+        # another value carrying the SAME zone object, half a year away (in
+        # the other phase of the zone's daylight saving rule)
+        d3 = json.loads(json.dumps(d))
+        d3['f'][1] = (d3['f'][1] + 5) % 12 + 1
+        d3['f'][2] = min(d3['f'][2], 28)
+        vals['d3'] = ['dt', d3]
     d2 = gen_dt(w)
     r = w.random()
     if r < 0.6:
@@ -308,7 +316,11 @@ PROGRAMS = {
                'r'), ('$r.offset', 'ro'), ('$r.timestamp', 'q'),
               ('$r.utc', 'u')],
     'hostzone': [('$d + $t', 'r1'), ('$r1 - $t', 'r2'), ('$r1 - $d', 'r3'),
-                 ('[$r2 = $d, $r3 = $t, ($t + $d) = $r1]', 'b')],
+                 ('[$r2 = $d, $r3 = $t, ($t + $d) = $r1]', 'b'),
+                 ('[$d.utc, $d3.utc]', 'u'),
+                 ('[$d.timestamp, $d3.timestamp]', 'q'),
+                 ('[$d = $d.utc, $d3 = $d3.utc, $d3 > $d, $d3 > $d.utc, '
+                  '$d3.utc > $d]', 'c')],
     'naive': [('[$d.offset, $d.timestamp, $d.utc]', 'p'),
               ('[$d - $d2, $d < $d2, $d >= $d2, $d = $d2]', 'c'),
               ('$d + $t', 'r1'), ('$r1 - $d', 'r3')],
@@ -527,6 +539,25 @@ def check_clause(case, out):
             if list(out['b']) != [True, True, True]:
                 bad('equality of round-tripped values (host zone)',
                     got=list(out['b']), expected=[True, True, True])
+        if 'd3' in vals and need('u', 'q', 'c'):
+            # every value of a host zone denotes the instant its own
+            # utcoffset() says, whatever was seen of that zone before
+            d3 = dt_from_spec(vals['d3'][1])
+            for nm, dv, uv, qv in (('d', d, out['u'][0], out['q'][0]),
+                                   ('d3', d3, out['u'][1], out['q'][1])):
+                inst, _ = model_of(dv)
+                ui, uoff = model_of(uv)
+                if ui != inst or uoff != 0:
+                    bad('%s.utc is not the same instant at offset zero '
+                        '(host zone)' % nm, got=repr(uv), expected=inst)
+                if not close(qv, inst / 1e6, inst / 1e6):
+                    bad('%s.timestamp is not the instant (host zone)' % nm,
+                        got=qv, expected=inst / 1e6)
+            later = model_of(d3)[0] > model_of(d)[0]
+            if list(out['c']) != [True, True, later, later, later]:
+                bad('equality / ordering of instants (host zone)',
+                    got=list(out['c']),
+                    expected=[True, True, later, later, later])
     elif clause == 'compare':
         if not in_range(di, doff) or not in_range(d2i, d2off):
             edge[0] = True
